@@ -106,6 +106,28 @@ def problems(rng, tier):
     asg[3][3] = {'outlet_temp': 780.0}
     c3['assign'] = asg
     out.append(('core-bc-kinds-range', c3, True))
+    # a core map with empty positions before assigned ones, every kind of
+    # boundary condition after the first hole
+    occ = [0, 2, 3, 5, 6]
+    names5 = ['B', 'A', 'A', 'B', 'A']
+    lay5 = [(p7[i][0], p7[i][1], names5[k]) for k, i in enumerate(occ)]
+    flows5 = [flow_for({'A': A, 'B': B}[n], 0.1) * (0.8 + 0.1 * k)
+              for k, n in enumerate(names5)]
+    c5 = make_core(rng, {'A': A, 'B': B}, lay5, flows5, gap_model='flow',
+                   bypass_fraction=0.03)
+    asg = [[a[0], a[1], a[2], dict(a[3])] for a in c5['assign']]
+    asg[2][3] = {'outlet_temp': 770.0}
+    asg[4][3] = {'delta_temp': 130.0}
+    c5['assign'] = asg
+    out.append(('core-holes-bc-kinds', c5, True))
+    # temperature-dependent coolant with a property-update tolerance: the
+    # reference state of the update rule must not depend on the unit the
+    # inlet temperature is written in
+    c6 = make_core(rng, {'a1': bundle_type(2)}, [(1, 1, 'a1')],
+                   [flow_for(bundle_type(2))], gap_model='flow',
+                   bypass_fraction=0.05, coolant='sodium')
+    c6['setup']['param_update_tol'] = 0.02
+    out.append(('sodium-update-tolerance', c6, True))
     if tier == 'thorough':
         c4 = make_core(rng, {'a1': bundle_type(2, nd=2)}, [(1, 1, 'a1')],
                        [flow_for(bundle_type(2))], gap_model='no_flow',
